@@ -9,7 +9,7 @@
 //! is forwarded in fragments of case-chosen sizes (`h2` cases).
 //!
 //! Case grammar (space separated):
-//!   (call|h2|h2x).S<q><s>.C<s'> <yieldThr> RQMD <hmap> RQ <k> <tok>*k RQCUT <j> <step>*j
+//!   (call|callz-<g|d|z>|h2|h2x).S<q><s>.C<s'> <yieldThr> RQMD <hmap> RQ <k> <tok>*k RQCUT <j> <step>*j
 //!        H <reads> E <status|-> INIT <hmap> BODY <k> <tok>*k FINAL <status|-> RSCUT <j> <step>*j
 //!     q,s,s' ∈ {0,1}: server entry point takes a request stream / returns a response stream;
 //!                     client API returns a response stream
@@ -17,7 +17,8 @@
 //!     tok    = x<hex> message | p Pending
 //!     step   = <size> take that many bytes as one data frame | p Pending
 //!              (for `h2` cases the steps are the fragment sizes of the byte pipe, cyclically;
-//!               `h2x` = the same call three times concurrently on the one connection)
+//!               `h2x` = the same call three times concurrently on the one connection;
+//!               `callz-*` = compression enabled on both ends, plans cut the compressed bytes)
 //!     status = <code> <msg> <details> <hmap>
 //! Observed (after a summary token `K=<handler got>/<client got>`):
 //!   SEEN notcalled | SEEN unary <rhmap> <msg> | SEEN stream <rhmap> <k> <msg>*k open|done|err <rstatus>
@@ -72,6 +73,8 @@ pub struct Case {
     pub h2: bool,
     /// number of concurrent identical calls on the one HTTP/2 connection (`h2x` cases)
     pub conc: usize,
+    /// compression enabled (send + accept) on both ends: 'g' gzip, 'd' deflate, 'z' zstd (`callz-*` cases)
+    pub comp: Option<char>,
     pub srv_req_stream: bool,
     pub srv_resp_stream: bool,
     pub cli_resp_stream: bool,
@@ -136,7 +139,12 @@ impl Case {
     pub fn line(&self) -> String {
         format!(
             "{}.S{}{}.C{} {} RQMD {} RQ {} RQCUT {} H {} E {} INIT {} BODY {} FINAL {} RSCUT {}",
-            if self.h2 && self.conc > 1 { "h2x" } else if self.h2 { "h2" } else { "call" },
+            match (self.h2, self.conc > 1, self.comp) {
+                (true, true, _) => "h2x".to_string(),
+                (true, false, _) => "h2".to_string(),
+                (false, _, Some(c)) => format!("callz-{}", c),
+                (false, _, None) => "call".to_string(),
+            },
             b(self.srv_req_stream),
             b(self.srv_resp_stream),
             b(self.cli_resp_stream),
@@ -226,7 +234,7 @@ pub fn parse_case(line: &str) -> Option<Case> {
         return None;
     }
     let kind = head[0];
-    if kind != "call" && kind != "h2" && kind != "h2x" {
+    if kind != "call" && kind != "h2" && kind != "h2x" && !kind.starts_with("callz-") {
         return None;
     }
     let s = head[1].as_bytes();
@@ -254,8 +262,9 @@ pub fn parse_case(line: &str) -> Option<Case> {
     c.expect("RSCUT")?;
     let rs_cut = c.steps()?;
     Some(Case {
-        h2: kind != "call",
+        h2: kind == "h2" || kind == "h2x",
         conc: if kind == "h2x" { 3 } else { 1 },
+        comp: kind.strip_prefix("callz-").and_then(|c| c.chars().next()),
         srv_req_stream: s[1] == b'1',
         srv_resp_stream: s[2] == b'1',
         cli_resp_stream: cl[1] == b'1',
@@ -535,6 +544,11 @@ impl Handler {
         if self.case.h2 {
             h.remove("user-agent");
         }
+        if self.case.comp.is_some() {
+            for n in COMPRESSION_NAMES {
+                h.remove(n);
+            }
+        }
         render_headers(&h)
     }
     /// every invocation must have seen the same thing (concurrent identical calls)
@@ -628,8 +642,24 @@ impl tonic::server::StreamingService<Vec<u8>> for Handler {
 }
 
 /// the real `server::Grpc` entry point the case names
+fn encoding_of(c: Option<char>) -> Option<tonic::codec::CompressionEncoding> {
+    match c {
+        Some('g') => Some(tonic::codec::CompressionEncoding::Gzip),
+        Some('d') => Some(tonic::codec::CompressionEncoding::Deflate),
+        Some('z') => Some(tonic::codec::CompressionEncoding::Zstd),
+        _ => None,
+    }
+}
+
+/// names the protocol itself adds when compression is on; removed before comparing (the Lean
+/// model has compression off: these cases check that compression is transparent end to end)
+const COMPRESSION_NAMES: [&str; 2] = ["grpc-encoding", "grpc-accept-encoding"];
+
 async fn serve(case: Arc<Case>, seen: Arc<Mutex<String>>, req: http::Request<Body>) -> http::Response<Body> {
     let mut grpc = tonic::server::Grpc::new(RawCodec(case.yield_thr));
+    if let Some(e) = encoding_of(case.comp) {
+        grpc = grpc.accept_compressed(e).send_compressed(e);
+    }
     let h = Handler { case: case.clone(), seen };
     match (case.srv_req_stream, case.srv_resp_stream) {
         (false, false) => grpc.unary(h, req).await,
@@ -681,6 +711,9 @@ where
     T::Future: Send,
 {
     let mut grpc = tonic::client::Grpc::with_origin(svc, http::Uri::from_static("http://verif.test"));
+    if let Some(e) = encoding_of(case.comp) {
+        grpc = grpc.send_compressed(e).accept_compressed(e);
+    }
     if grpc.ready().await.is_err() {
         return "CLIENT notready".into();
     }
@@ -767,7 +800,8 @@ fn exec_inproc(case: Case) -> String {
         let case = Arc::new(case);
         let seen = Arc::new(Mutex::new("notcalled".to_string()));
         let svc = InProc { case: case.clone(), seen: seen.clone() };
-        let client = match tokio::time::timeout(Duration::from_secs(30), client_call(&case, svc, &[])).await {
+        let strip: &[&str] = if case.comp.is_some() { &COMPRESSION_NAMES } else { &[] };
+        let client = match tokio::time::timeout(Duration::from_secs(30), client_call(&case, svc, strip)).await {
             Ok(s) => s,
             Err(_) => "CLIENT hang".to_string(),
         };
@@ -1278,6 +1312,7 @@ fn gen_structured(rng: &mut Rng, h2: bool) -> Case {
     Case {
         h2,
         conc: 1,
+        comp: None,
         srv_req_stream: q,
         srv_resp_stream: sresp,
         cli_resp_stream: sresp,
@@ -1376,6 +1411,7 @@ fn corpus() -> Vec<Case> {
     let base = Case {
         h2: false,
         conc: 1,
+        comp: None,
         srv_req_stream: false,
         srv_resp_stream: false,
         cli_resp_stream: false,
@@ -1472,8 +1508,13 @@ pub fn generate(tier: &str, rng: &mut Rng) -> Vec<String> {
     }
     let (n_struct, n_mal, n_h2, n_h2_mal) = if thorough { (400000, 60000, 40000, 6000) } else { (24000, 4000, 0, 0) };
     let mut inproc: Vec<String> = Vec::new();
-    for _ in 0..n_struct {
-        inproc.push(gen_structured(rng, false).line());
+    for i in 0..n_struct {
+        let mut c = gen_structured(rng, false);
+        if i % 8 == 7 {
+            // compression on at both ends; the model predicts the same results
+            c.comp = Some(*rng.pick(&['g', 'd', 'z']));
+        }
+        inproc.push(c.line());
     }
     for _ in 0..n_mal {
         inproc.push(gen_malformed(rng, false).line());
